@@ -1,17 +1,59 @@
 """C17 -- No out-of-bounds access or undefined behaviour on any supported workflow.
 
-What a proof can carry: the index-chasing loops, the storage arithmetic, the equality comparison are modelled with
-bounds-checked reads, and "no OOB outcome for any well-formed input" is proved in Coq (props/Properties_C17.v collects
-those theorems). What it cannot: undefined behaviour outside the modelled logic (Eigen, Boost, MPI internals, object
-lifetimes). For that every harness scenario family of the other checks is run through an ASan+UBSan build of the library
-and the harnesses; a sanitizer report is a violation with the scenario as replay. That part is testing, and is labelled
-so in the evidence; the claim is partial by construction (DESIGN.md section 4, C17).
+PROOF PART.  props/Properties_C17.v (39 theorems, no axioms): every routine of the library that computes an index and reads
+or writes through it, and that has an executable model in PV, is modelled with bounds-checked accesses, and "no OOB / Uninit /
+OutOfFuel outcome for every well-formed input" is proved: the three index-chasing loops, TwoParticleGFPart::compute, the
+table of TwoParticleGF::compute (incl. the empty frequency list), the state-label tests and the look-ups behind them
+(Hamiltonian::getEigenValue, DensityMatrix::getWeight), Operator equality / normalisation / product, IndexClassification
+(both ordering modes), the vertex storage (fill, refill, lookup), the container's permutation tables, the lattice
+interface, HamiltonianPart::prepare, FieldOperatorPart::compute.  The `source_*` theorems are about the models instantiated
+with the switches that translator/gen_c17.py reads off the C++ on every run (coq/gen/Gen_C17.v): they are unconditional
+and only typecheck while every switch is `true`.  Dropping a guard from the C++ turns its switch into `false`, the Coq
+build fails, and this module then looks for a concrete failing input: stage W below runs, for every switch, the library
+input that corresponds to the refutation witness proved in Coq for the unguarded variant (e.g. off-diagonal components
+in a single block for the chase loops) through the ASan+UBSan build; the sanitizer report is the replay.
+
+TESTING PART (labelled so in the evidence; the claim is partial by construction, DESIGN.md section 4):
+  W  witness inputs per switch (above), always run
+  F  every scenario family of tools/scen.py, symmetries ignored and default, all G_ij, sampled susceptibilities, averages,
+     chi for index quadruples with equal and distinct indices, purge on/off, empty frequency lists  -> ASan+UBSan (h_ed)
+  S  call-sequence variety (harness/h_c17.cpp): every prepare/compute called twice, getters before compute (exceptions),
+     containers filled twice, Lattice copied and the original destroyed, both index orderings, custom integrals of motion,
+     spinless and mixed-spin sites, empty frequency lists, state labels 2^N-1 / 2^N / 2^N+1 / ULONG_MAX, G at many Matsubara
+     numbers, tau at both ends, Vertex4 recomputed with shrinking windows                                -> ASan+UBSan
+  H  the harnesses of C05 (operator algebra incl. equality), C13 (container histories), C15 (vertex storage),
+     C18 (index bookkeeping), C20 (lattice interface, getSite of unknown labels)                          -> ASan+UBSan
+  M  MPI runs (np = 2, 3; 4 in the thorough tier) of harness/h_c06 (Hamiltonian, G, 2PGF container split / not split,
+     single 2PGF incl. empty list) under the ASan+UBSan build
+  V  Valgrind memcheck (--track-origins=yes) of the NON-instrumented build on S (and on h_ed queries in the thorough
+     tier): uninitialised reads, which the sanitizers do not see
+A sanitizer / Valgrind report is a violation keyed "<kind> in <function>", with scenario + query as replay.
+
+PENDING: robustness defects found by stage S outside the call sequences that were run before (see PENDING below and
+/verif/proposed/fix-*.diff).  They are probed on every run; a report that matches a PENDING entry is printed as
+PENDING-FINDING and listed in the evidence, not counted as a violation, until the main session applies the proposed patch
+(the probe then simply passes) or registers it in known_findings.json.  Anything else is a violation.
 """
 import os
 import re
+import shutil
+import tempfile
 import pv
 import edlib
 import scen
+
+# (substring of the sanitizer kind, substring of the function) -> proposed patch.  Reports on the *pending probes* only.
+PENDING = [
+    {"kind": "reference binding to null pointer", "fn": "IndexClassification::prepare",
+     "probe": "seq index_twice", "patch": "proposed/fix-indexclassification-prepare-twice.diff",
+     "what": "IndexClassification::prepare called a second time on the same object doubles IndexSize and dereferences the null IndexInfo pointers of the new cells"},
+    {"kind": "reference binding to null pointer", "fn": "FieldOperatorContainer::get",
+     "probe": "seq partial_ops_other 0 1", "patch": "proposed/fix-fieldoperatorcontainer-unprepared-index.diff",
+     "what": "FieldOperatorContainer::getCreationOperator / getAnnihilationOperator for a valid index that was not in the set given to prepareAll returns a reference to *NULL (documented: 'Makes on-demand computation')"},
+    {"kind": "null pointer", "fn": "MatsubaraContainer4",
+     "probe": "seq vertex 0 1 0 1 1 1 uncomputed", "patch": "proposed/fix-vertex4-uncomputed.diff",
+     "what": "Vertex4::operator() before the first compute() calls value() through the storage's null source pointer"},
+]
 
 
 def sanitizer_report(err):
@@ -34,6 +76,90 @@ def sanitizer_report(err):
             fn = re.sub(r'\s+/.*', '', fn)
             break
     return kind, fn
+
+
+def valgrind_report(err):
+    """-> (kind, function) or None   (first error of a memcheck log)"""
+    lines = err.split("\n")
+    for i, l in enumerate(lines):
+        m = re.match(r'==\d+== (Invalid (?:read|write) of size \d+|Conditional jump or move depends on uninitialised value\(s\)|'
+                     r'Use of uninitialised value of size \d+|Syscall param .* uninitialised byte\(s\)|Invalid free\(\).*|'
+                     r'Mismatched free\(\).*|Source and destination overlap.*|Jump to the invalid address.*|Process terminating with .*)', l)
+        if not m:
+            continue
+        kind = re.sub(r'\s+', ' ', m.group(1))
+        fn, first = None, None
+        for k in lines[i + 1:i + 30]:
+            fm = re.match(r'==\d+==\s+(?:at|by) 0x[0-9A-F]+: (.+?) \((?:in )?[^()]*\)\s*$', k)
+            if not fm:
+                if re.match(r'==\d+==\s*$', k):
+                    break
+                continue
+            first = first or fm.group(1)
+            if "Pomerol::" in fm.group(1) or "pMPI::" in fm.group(1):
+                fn = fm.group(1)
+                break
+        fn = re.sub(r'\(.*', '', fn or first or "?").strip()
+        return "valgrind " + kind, fn
+    return None
+
+
+def read_switches():
+    """the booleans of coq/gen/Gen_C17.v as generated for the tree under test"""
+    p = os.path.join(pv.COQ, "gen", "Gen_C17.v")
+    try:
+        txt = open(p).read()
+    except OSError:
+        return {}
+    return {m.group(1): m.group(2) == "true" for m in re.finditer(r'Definition (\w+) : bool := (true|false)\.', txt)}
+
+
+# ---------------------------------------------------------------------------------------------------------------
+# scenarios
+
+ATOM_IGNORE = "site A 1 2\naddCoulombS A 2 -1\nsymm ignore\nbeta 3\n"
+ATOM_DEFAULT = "site A 1 2\naddCoulombS A 2 -1\naddMagnetization A 0.25\nsymm default\nbeta 2\n"
+ATOM_CUSTOM = "site A 1 2\naddCoulombS A 2 -1\nsymm custom\niom 2 1 2 1 0 0 0 1 2 1 1 0 1\nbeta 3\n"
+TWO_SITE = "site A 1 2\nsite B 1 2\naddCoulombS A 2 -1\naddCoulombS B 1.5 -0.75\naddHopping4 A B -0.5\nsymm default\nbeta 2\n"
+TWO_SITE_IGNORE = TWO_SITE.replace("symm default", "symm ignore")
+MIXED_SPIN = "site A 1 1\nsite B 1 2\naddLevel A -0.5\naddCoulombS B 2 -1\naddHopping7 A B -0.25 0 0 0\norder_spins %d\nsymm default\nbeta 2\n"
+SPINLESS = ("site A 2 1\nsite B 1 1\naddLevel A -0.5\naddLevel B 0.25\naddHopping6 A B -0.5 0 0\naddHopping6 A B 0.75 1 0\n"
+            "term 4 1.5 1 A 0 0 1 B 0 0 0 B 0 0 0 A 0 0\nsymm default\nbeta 1\n")
+ATOMIC_LIMIT = "site A 1 2\nsite B 1 2\naddCoulombS A 1 -0.25\naddCoulombS B 2 -0.5\nsymm default\nbeta 4\n"      # one-dimensional blocks
+
+
+def seq_models(quick):
+    ms = [("atom-ignore", ATOM_IGNORE, 2), ("atom-custom-iom", ATOM_CUSTOM, 2), ("mixed-spin-spin-major", MIXED_SPIN % 1, 3),
+          ("spinless", SPINLESS, 3), ("two-site", TWO_SITE, 4)]
+    if not quick:
+        ms += [("atom-default", ATOM_DEFAULT, 2), ("mixed-spin-site-major", MIXED_SPIN % 0, 3), ("two-site-ignore", TWO_SITE_IGNORE, 4),
+               ("atomic-limit", ATOMIC_LIMIT, 4)]
+    return ms
+
+
+def seq_lines(n, rng, quick):
+    idx = list(range(n))
+    ls = ["seq reprepare", "seq hidx_twice", "seq early", "seq lattice_copy", "seq partial_ops %d" % rng.choice(idx), "seq labels", "seq indexinfo", "seq gfc"]
+    pairs = [(i, j) for i in idx for j in idx]
+    for (i, j) in (rng.sample(pairs, 2) if quick else pairs[:9]):
+        ls.append("seq gfmany %d %d %d" % (i, j, 40 if quick else 300))
+    quads = [(0, n - 1, 0, n - 1), (n - 1, 0, 0, n - 1)] + ([tuple(rng.choice(idx) for _ in range(4))] if n > 2 else [])
+    if not quick:
+        quads += [tuple(rng.choice(idx) for _ in range(4)) for _ in range(3)]
+    for (a, b, c, d) in quads[:2 if quick else 6]:
+        ls.append("seq susc %d %d %d %d" % (a, b, c, d))
+    ls.append("seq avg 0 %d" % (n - 1))
+    for q, (i, j, k, l) in enumerate(quads):
+        ls.append("seq chi %d %d %d %d %d %d" % (i, j, k, l, q % 2, 0 if q == 1 else 3))
+        if q < (1 if quick else 3) or n <= 2:
+            ls.append("seq chi %d %d %d %d %d %d" % (i, j, k, l, (q + 1) % 2, 0))
+    ls.append("seq tpgfc 0 %d 0 %d 0" % (n - 1, n - 1))
+    ls.append("seq tpgfc %d 0 0 %d 1" % (n - 1, n - 1))
+    if n <= 3 or not quick:
+        ls.append("seq vertex 0 %d 0 %d 2 1" % (n - 1, n - 1))
+    else:
+        ls.append("seq vertex 0 %d 0 %d 1 1" % (n - 1, n - 1))
+    return ls
 
 
 def queries_for(n, rng, quick):
@@ -60,32 +186,66 @@ def queries_for(n, rng, quick):
     return q
 
 
-def run(chk):
-    quick = chk.tier == "quick"
-    chk.prove()
-    chk.trusted += ["ASan+UBSan instrumentation of g++ 12 (library and harness compiled with -fsanitize=address,undefined)",
-                    "the sanitizer part is testing over the scenario families below, not proof"]
-    chk.assume += ["undefined behaviour that the sanitizers do not instrument (e.g. uninitialised reads, strict aliasing) is not observed"]
-    rng = chk.rng
-    fams = scen.FAMILIES + [scen.pairing, scen.three_orbital_small]
-    nscen = 10 if quick else 60
-    seen = {}
-    for k in range(nscen):
-        fam = fams[k % len(fams)]
-        symm = "ignore" if (k // len(fams)) % 2 == 0 or fam in (scen.pairing, scen.three_orbital_small) else "default"
-        name, text, n, info = fam(rng, symm)
-        qs = queries_for(n, rng, quick)
-        # run query by query groups so that one abort does not hide later findings
+def witness_queries():
+    """Hubbard atom, symmetries ignored (a single block): every G_ij, every susceptibility, every chi component -- the library
+    inputs behind the Coq witnesses gf_chase_unguarded_oob / chaseIndices_unguarded_oob / tpgf_empty_freqs_unguarded_undefined"""
+    q = []
+    for i in (0, 1):
+        for j in (0, 1):
+            q.append("gf %d %d 1 0 0.5" % (i, j))
+    for a in (0, 1):
+        for b in (0, 1):
+            for c in (0, 1):
+                for d in (0, 1):
+                    q.append("susc %d %d %d %d 0 0 1" % (a, b, c, d))
+                    q.append("chi %d %d %d %d 0 1 0 0 0" % (a, b, c, d))
+    q.append("chi 0 1 0 1 0 0")
+    q.append("chi 0 1 0 1 1 0")
+    q.append("chi 0 0 0 0 0 0")
+    return q
+
+
+# ---------------------------------------------------------------------------------------------------------------
+# running things
+
+class Runner:
+    def __init__(self, chk):
+        self.chk = chk
+        self.seen = {}
+        self.pending_hits = []
+        self.stage_counts = {}
+
+    def count(self, stage, n=1):
+        self.stage_counts[stage] = self.stage_counts.get(stage, 0) + n
+
+    def report(self, stage, kind, fn, what, replay, pending_ok=False):
+        key = "%s in %s" % (kind, fn)
+        if pending_ok:
+            for p in PENDING:
+                if p["kind"] in kind and p["fn"] in fn:
+                    if p["probe"] not in [h["probe"] for h in self.pending_hits]:
+                        self.pending_hits.append({"probe": p["probe"], "key": key, "what": p["what"], "patch": p["patch"], "replay": replay})
+                        print("PENDING-FINDING: property=C17 %s -- %s [%s]" % (key, p["what"], p["patch"]))
+                    return
+        if key not in self.seen:
+            self.seen[key] = True
+            self.chk.violation(key, "[stage %s] %s: %s" % (stage, key, what), replay)
+
+    # -- h_ed (scenario + queries) under the sanitizers, query by query attribution ----------------------------
+    def ed_queries(self, stage, name, symm, text, qs, sample=True):
+        chk = self.chk
         pending = list(qs)
         while pending:
             r = edlib.run(text, pending, variant="asan", oracle=False, timeout=900)
-            done = len(r.impl)
             for t in r.impl:
-                chk.case(name + symm + " ".join(t[:6]), "%s symm=%s %s" % (name, symm, t[0]), True,
-                         {"family": name, "symm": symm, "record": " ".join(t[:8])} if len(chk.samples) < 4 else None)
+                chk.case(stage + name + symm + " ".join(t[:6]), "%s:%s symm=%s %s" % (stage, name, symm, t[0]), True,
+                         {"stage": stage, "family": name, "symm": symm, "record": " ".join(t[:8])} if (sample and len(chk.samples) < 2) else None)
+                self.count(stage)
+            if r.error and not r.impl:
+                chk.notes.append("stage %s: scenario %s did not build: %s" % (stage, name, r.error))
+                break
             if not r.crash:
                 break
-            # find the aborting query by running the pending ones individually
             culprit = None
             for qi, ql in enumerate(pending):
                 r1 = edlib.run(text, [ql], variant="asan", oracle=False, timeout=600)
@@ -94,44 +254,263 @@ def run(chk):
                     break
             if culprit is None:
                 chk.notes.append("abort not reproducible query by query: %s" % name)
+                self.report(stage, "crash rc=%s" % r.crash[0], "?", "abort of h_ed on scenario %s that is not reproducible query by query" % name,
+                            {"harness": "h_ed (asan variant)", "scenario": text, "queries": pending, "stderr_tail": r.crash[1][:3000]})
                 break
             qi, bad, crash = culprit
             rep = sanitizer_report(crash[1])
             kind = rep[0] if rep else "crash rc=%s" % crash[0]
             fn = rep[1] if rep else "?"
-            key = "%s in %s" % (kind, fn)
-            if key not in seen:
-                seen[key] = True
-                chk.violation(key, "%s in %s on scenario family %s (symm %s), query `%s`" % (kind, fn, name, symm, bad),
-                              {"harness": "h_ed (asan variant)", "scenario": text, "query": bad, "stderr_tail": crash[1][:4000]})
+            self.report(stage, kind, fn, "scenario %s (symm %s), query `%s`" % (name, symm, bad),
+                        {"harness": "h_ed (asan variant)", "scenario": text, "query": bad, "stderr_tail": crash[1][:4000]})
             pending = pending[qi + 1:]
-    # other harnesses under the sanitizers (small samples)
-    for hname, inp in (("h_c15", "probe 0 -3 3\nprobe 1 -5 5\nprobe 2 -7 7\n"),
-                       ("h_c05", "3 ; d0 c1 * ; c1 d0 * d2 c2 * +\n3 ; d0 ; md0.d1.c2\n3 ; md0.d1.c2 ; d0\n2 ; c0 ; k1\n4 ; N4 ; S4:0,2\n")):
+
+    # -- h_c17 histories ------------------------------------------------------------------------------------------
+    def run_seq(self, binary, text, lines, wrapper=None, timeout=900):
+        inp = "model\n%send\n%s\n" % (text, "\n".join(lines))
+        if wrapper:
+            e = dict(pv.MPI_ENV)
+            e["OMP_NUM_THREADS"] = "1"
+            rc, out, err = pv.sh(wrapper + [binary], input=inp, timeout=timeout, env=dict(os.environ, **e))
+        else:
+            rc, out, err = pv.run_harness(binary, inp, timeout=timeout)
+        done = [l for l in out.split("\n") if l.startswith("SEQ ")]
+        return rc, done, err, out
+
+    def sequences(self, stage, binary, name, text, lines, tool="asan", pending_ok=False):
+        """run the histories in one process; on a report, attribute it by running them one by one"""
+        chk = self.chk
+        wrapper = ["valgrind", "--error-exitcode=9", "--track-origins=yes", "-q"] if tool == "valgrind" else None
+        rc, done, err, out = self.run_seq(binary, text, lines, wrapper)
+        parse = valgrind_report if tool == "valgrind" else sanitizer_report
+        bad = rc != 0 or parse(err) is not None or len(done) != len(lines)
+        if not out.startswith("M ok") and "\nM ok" not in out:
+            chk.notes.append("stage %s: model %s did not build: %s" % (stage, name, (out + err)[-300:]))
+            return
+        if not bad:
+            for l in done:
+                t = l.split()
+                chk.case(stage + name + l, "%s:%s %s %s" % (stage, name, t[1], "throws" if " throws " in l else "ok"), True,
+                         {"stage": stage, "model": name, "history": l} if len(chk.samples) < 5 and t[1] in ("early", "labels") else None)
+                self.count(stage)
+            return
+        for ql in lines:
+            rc1, done1, err1, out1 = self.run_seq(binary, text, [ql], wrapper)
+            rep = parse(err1)
+            if rc1 == 0 and rep is None and len(done1) == 1:
+                chk.case(stage + name + done1[0], "%s:%s %s ok" % (stage, name, ql.split()[1]), True, None)
+                self.count(stage)
+                continue
+            kind, fn = rep if rep else ("crash rc=%d" % rc1, "?")
+            self.report(stage, kind, fn, "model %s, history `%s`" % (name, ql),
+                        {"harness": "h_c17 (%s)" % ("valgrind memcheck, real variant" if tool == "valgrind" else "asan variant"), "scenario": text, "query": ql,
+                         "stderr_tail": (pv.sanitizer_digest(err1) if tool != "valgrind" else "\n".join(l for l in err1.split("\n") if l.startswith("=="))[:4000]) or err1[-2000:]},
+                        pending_ok=pending_ok)
+
+    # -- a plain harness under the sanitizers ------------------------------------------------------------------
+    def plain(self, stage, hname, inp, args=(), bad_output=None):
+        chk = self.chk
         h = pv.build_harness(hname, "asan")
-        rc, out, err = pv.run_harness(h, inp, timeout=600)
-        chk.case(hname + inp, "%s under sanitizers" % hname, True, None)
-        if rc != 0:
-            rep = sanitizer_report(pv.sanitizer_digest(err))
-            kind, fn = rep if rep else ("crash rc=%d" % rc, "?")
-            chk.violation("%s in %s [%s]" % (kind, fn, hname), "%s in %s running %s" % (kind, fn, hname),
-                          {"harness": hname + " (asan variant)", "input": inp, "stderr_tail": pv.sanitizer_digest(err)[:4000]})
-    chk.rule = ("each scenario family of tools/scen.py (symmetries ignored and default) with every G_ij, sampled susceptibilities (all subtraction "
-                "modes), averages, chi for index quadruples with distinct and equal indices, purge on/off, empty frequency lists, through the "
-                "ASan+UBSan build; a case = one answered query record; all non-trivial; distinct = distinct (family, symm, record head). "
-                "Sanitizer part = testing. Proof part = the *_in_bounds theorems listed under theorems.")
+        rc, out, err = pv.run_harness(h, inp, timeout=900, args=list(args))
+        chk.case(stage + hname + inp, "%s:%s under sanitizers" % (stage, hname), True, None)
+        self.count(stage)
+        rep = sanitizer_report(err)
+        problem = bad_output(out) if bad_output else None
+        if rc != 0 or rep or problem:
+            kind, fn = rep if rep else (("crash rc=%d" % rc) if rc != 0 else problem, "?")
+            self.report(stage, kind + " [%s]" % hname, fn, "running %s on its sample input" % hname,
+                        {"harness": hname + " (asan variant)", "args": list(args), "input": inp, "stderr_tail": (pv.sanitizer_digest(err) or err[-2000:])[:4000],
+                         "stdout_tail": out[-1500:]})
+
+    # -- MPI -------------------------------------------------------------------------------------------------
+    def mpi(self, stage, name, model, cmds, P):
+        chk = self.chk
+        h = pv.build_harness("h_c06", "asan")
+        d = tempfile.mkdtemp(prefix="c17-", dir=pv.BUILD)
+        try:
+            open(os.path.join(d, "in.txt"), "w").write("model\n" + model + "end\n" + cmds)
+            rc, out, err = pv.run_harness(h, "", np=P, args=[d, os.path.join(d, "in.txt")], timeout=900)
+            ranks_done, throws = 0, []
+            for r in range(P):
+                try:
+                    txt = open(os.path.join(d, "rank%d.out" % r)).read()
+                except OSError:
+                    txt = ""
+                if "\nDONE" in txt:
+                    ranks_done += 1
+                throws += [l for l in txt.split("\n") if l.startswith("THROWS") or l.startswith("ERROR")]
+        finally:
+            shutil.rmtree(d, ignore_errors=True)
+        chk.case(stage + name + str(P) + cmds, "%s:%s np=%d" % (stage, name, P), True,
+                 {"stage": stage, "model": name, "np": P, "commands": cmds.strip().split("\n")} if P == 3 and len(chk.samples) < 6 else None)
+        self.count(stage)
+        rep = sanitizer_report(err)
+        if rc != 0 or rep or ranks_done != P:
+            kind, fn = rep if rep else ("crash rc=%d ranks finished %d/%d" % (rc, ranks_done, P), "?")
+            self.report(stage, kind, fn, "h_c06 under mpiexec -np %d on model %s" % (P, name),
+                        {"harness": "h_c06 (asan variant)", "np": P, "scenario": model, "query": cmds, "stderr_tail": (pv.sanitizer_digest(err) or err[-2500:])[:4000]})
+        elif throws:
+            chk.notes.append("stage M %s np=%d: %s" % (name, P, throws[:3]))
+
+
+MPI_CMDS = ("ham\ngf 0 1 0 1 -2\nc2 1 0 3 0 1 0 1 0 2 0 2 1 3 1 3 2 0 0 0 1 -1 1\nc2 0 1 2 0 1 0 1 0 0 1 1 0\n"
+            "c2 1 1 1 0 1 0 1 0\nchi 0 1 0 1 0 2 0 0 0 -1 0 -1\nchi 0 1 0 1 1 0\nchi 1 0 0 1 0 0\n")
+MPI_CMDS_ATOM = "ham\ngf 1 0 0 1\nc2 1 0 2 0 1 0 1 1 0 0 1 1 0 0 0\nc2 0 0 1 0 1 0 1 0\nchi 0 1 0 1 0 1 0 0 0\nchi 0 1 0 1 0 0\n"
+
+
+def run(chk):
+    quick = chk.tier == "quick"
+    ok, log = chk.prove()
+    sw = read_switches()
+    chk.extra["source_switches"] = sw
+    off = sorted(k for k, v in sw.items() if not v)
+    if off:
+        chk.notes.append("switches read off the source that are FALSE (the guard is not in the C++): %s -- the source_* theorems cannot hold; "
+                         "stages W/F/S look for the concrete failing input" % ", ".join(off))
+    chk.checker_cmd = "make -C coq props/Properties_C17.vo (coqc 8.16.1, full .vo build; gen/Gen_C17.v regenerated from the C++ first)"
+    chk.trusted += ["PROOF part: translator/gen_c17.py (recognises, by shape, the ten guards whose presence the source_* theorems depend on) and the "
+                    "hand-written models PV.Sparse/GFPart/SuscPart/HPart/Poly/Index/Chi/Matsubara4/Container4/Lattice/Bounds (tied to the code by the "
+                    "differential checks of C01-C03, C05, C13, C15, C18, C20)",
+                    "TESTING part: ASan+UBSan instrumentation of g++ 12 (library and harnesses compiled with -fsanitize=address,undefined "
+                    "-fno-sanitize-recover=undefined), Valgrind 3.19 memcheck on the non-instrumented build, OpenMPI 4.1 launcher",
+                    "the sanitizer / Valgrind / MPI stages are testing over the inputs listed under rule, not proof"]
+    chk.assume += ["no theorem covers: Eigen, Boost and MPI internals; object lifetimes (use after free, double delete); reads of uninitialised storage outside the "
+                   "modelled tables; data races between OpenMP threads; these are only exercised by the instrumented runs",
+                   "the models' well-formedness hypotheses (compressed sparse storage as Eigen produces it, a classification as StatesClassification::compute "
+                   "produces it, block-respecting Hamiltonian) are established by the other properties' checks (C07, C03, C10), not here"]
+    rng = chk.rng
+    R = Runner(chk)
+
+    # ---- W: witness inputs per switch (always; decisive when the proof part is broken)
+    R.ed_queries("W", "hubbard-atom-single-block", "ignore", ATOM_IGNORE, witness_queries(), sample=False)
+    h17 = pv.build_harness("h_c17", "asan")
+    R.sequences("W", h17, "atom-ignore", ATOM_IGNORE, ["seq labels", "seq chi 0 1 0 1 0 0", "seq chi 0 1 0 1 1 0", "seq tpgfc 0 1 0 1 0"])
+    R.sequences("W", h17, "mixed-spin-spin-major", MIXED_SPIN % 1, ["seq indexinfo", "seq labels"])
+    R.plain("W", "h_c05", "2 ; c0 ; k1\n3 ; d0 ; md0.d1.c2\n3 ; md0.d1.c2 ; d0\n3 ; d0 c1 * ; c1 d0 * d2 c2 * +\n3 ; d0 c1 * d2 c2 * + ; d0 c1 *\n")
+    R.plain("W", "h_c20", "history asan\nsite A 1 2\ngetSite A\ngetSite Z\n", args=["--force-ub"])
+    R.plain("W", "h_c18", "case 1 1 2 x41 1 1 x42 1 2 1 x42 0 1\ncase 2 0 2 x41 1 1 x42 1 2 1 x43 0 0\ncase 3 1 3 x41 2 2 x42 1 0 x43 1 3 0\n",
+            bad_output=lambda o: ("harness reports a null IndexInfo pointer / a child died" if re.search(r'NULL|SEGV|DIED', o) else None))
+
+    # ---- F: scenario families through h_ed
+    fams = scen.FAMILIES + [scen.pairing, scen.three_orbital_small]
+    nscen = 9 if quick else 60
+    for k in range(nscen):
+        fam = fams[k % len(fams)]
+        symm = "ignore" if (k // len(fams)) % 2 == 0 or fam in (scen.pairing, scen.three_orbital_small) else "default"
+        if quick and k % 3 == 2 and fam not in (scen.pairing, scen.three_orbital_small):
+            symm = "default"        # the quick tier has one round only: every third family with the default symmetries
+        name, text, n, info = fam(rng, symm)
+        R.ed_queries("F", name, symm, text, queries_for(n, rng, quick))
+
+    # ---- S: call-sequence variety
+    for (name, text, n) in seq_models(quick):
+        R.sequences("S", h17, name, text, seq_lines(n, rng, quick))
+    # pending probes (one process each)
+    for p in PENDING:
+        R.sequences("S-pending", h17, "atom-ignore", ATOM_IGNORE, [p["probe"]], pending_ok=True)
+
+    # ---- H: the other properties' harnesses under the sanitizers
+    R.plain("H", "h_c15", "probe 0 -3 3\nprobe 1 -5 5\nprobe 2 -7 7\n" + ("" if quick else "probe 3 -9 9\nprobe 5 -12 12\n"))
+    R.plain("H", "h_c05", "3 ; d0 c1 * ; c1 d0 * d2 c2 * +\n3 ; d0 ; md0.d1.c2\n3 ; md0.d1.c2 ; d0\n2 ; c0 ; k1\n4 ; N4 ; S4:0,2\n")
+    R.plain("H", "h_c13", "model\n%send\nhist\nprep 2 0 1 0 1 1 0 0 1\nprep 2 0 1 0 1 1 0 0 1\ncompall 0\neval 0 1 0 1 0 0 0\neval 1 0 1 0 0 1 0\ncompall 1\n"
+                          "hist\nfill 0\nlookup 0 0 0 0\ncompelem 0 1 0 1\neval 0 1 1 0 -1 0 -1\nprepelem 1 1 1 1\ncompall 0\n" % ATOM_IGNORE)
+
+    # ---- M: MPI under ASan
+    try:
+        for P in ((2, 3) if quick else (2, 3, 4)):
+            R.mpi("M", "two-site", TWO_SITE.replace("symm default\n", ""), MPI_CMDS, P)
+            R.mpi("M", "atom-ignore", ATOM_IGNORE, MPI_CMDS_ATOM, P)
+            if not quick:
+                R.mpi("M", "mixed-spin", MIXED_SPIN % 1, "ham\ngf 0 2 0 1\nc2 1 0 2 0 1 0 1 0 2 0 2 1 0 0 0\nchi 0 2 0 2 0 0\n", P)
+        chk.extra["mpi_asan"] = "h_c06 (asan variant) under mpiexec -np %s" % ("2, 3" if quick else "2, 3, 4")
+    except pv.BuildError as ex:
+        chk.notes.append("stage M skipped: h_c06 does not build with the asan variant: %s" % ex.what)
+        chk.extra["mpi_asan"] = "skipped (h_c06 did not build with the asan variant)"
+
+    # ---- V: Valgrind memcheck on the non-instrumented build
+    if shutil.which("valgrind"):
+        h17r = pv.build_harness("h_c17", "real")
+        vm = [("atom-ignore", ATOM_IGNORE, 2)] if quick else [("atom-ignore", ATOM_IGNORE, 2), ("mixed-spin-spin-major", MIXED_SPIN % 1, 3), ("spinless", SPINLESS, 3),
+                                                               ("atom-custom-iom", ATOM_CUSTOM, 2)]
+        for (name, text, n) in vm:
+            R.sequences("V", h17r, name, text, seq_lines(n, rng, True), tool="valgrind")
+        if not quick:
+            hed = pv.build_harness("h_ed", "real")
+            for (name, text, n) in (("atom-ignore", ATOM_IGNORE, 2), ("two-site", TWO_SITE, 4)):
+                qs = queries_for(n, rng, True)
+                inp = "model ops\n%send\n%s\n" % (text, "\n".join(qs))
+                e = dict(os.environ, **pv.MPI_ENV)
+                e["OMP_NUM_THREADS"] = "1"
+                rc, out, err = pv.sh(["valgrind", "--error-exitcode=9", "--track-origins=yes", "-q", hed], input=inp, timeout=1800, env=e)
+                chk.case("V" + name + inp, "V:h_ed %s" % name, True, None)
+                R.count("V")
+                rep = valgrind_report(err)
+                if rc != 0 or rep:
+                    kind, fn = rep if rep else ("crash rc=%d" % rc, "?")
+                    R.report("V", kind, fn, "h_ed under valgrind on %s" % name,
+                             {"harness": "h_ed (valgrind memcheck, real variant)", "scenario": text, "queries": qs,
+                              "stderr_tail": "\n".join(l for l in err.split("\n") if l.startswith("=="))[:4000]})
+        chk.extra["valgrind"] = "memcheck --track-origins=yes on the real variant: %s" % ", ".join(m[0] for m in vm)
+    else:
+        chk.notes.append("stage V skipped: valgrind not installed")
+        chk.extra["valgrind"] = "skipped (valgrind not installed)"
+
+    # ---- evidence: what is proof, what is testing
+    chk.extra["proof_part"] = {
+        "file": "coq/props/Properties_C17.v", "theorems": len(chk.obligations), "discharged": len(chk.discharged),
+        "unconditional_about_the_source": [t for t in chk.obligations if t.startswith("source_")],
+        "necessity_witnesses": [t for t in chk.obligations if t.endswith("_oob") or "unguarded" in t or t.endswith("_undefined")],
+        "switches_read_off_the_source": sw,
+        "not_covered_by_any_theorem": "Eigen/Boost/MPI internals, object lifetimes, uninitialised reads outside the modelled tables, data races"}
+    chk.extra["testing_part"] = {"cases_per_stage": R.stage_counts,
+                                 "stages": {"W": "witness inputs per switch (ASan+UBSan)", "F": "scenario families via h_ed (ASan+UBSan)",
+                                            "S": "call-sequence variety via h_c17 (ASan+UBSan)", "S-pending": "probes of the PENDING findings",
+                                            "H": "harnesses of C05/C13/C15 (ASan+UBSan)", "M": "MPI np=2,3[,4] via h_c06 (ASan+UBSan)",
+                                            "V": "Valgrind memcheck, non-instrumented build"}}
+    chk.extra["pending_findings"] = [{k: v for k, v in h.items() if k != "replay"} for h in R.pending_hits]
+    if chk.notes:
+        chk.extra["notes"] = chk.notes[:20]
+    chk.rule = ("PROOF: theorems listed under `theorems` (statements in coq/props/Properties_C17.v), built from scratch after regenerating coq/gen/Gen_C17.v from "
+                "the C++. TESTING: a case = one answered query record (stages W, F), one completed call history (S, V), one harness run (H), one MPI run (M); "
+                "every case is non-trivial (it executes library code on a generated model); distinct = distinct (stage, model/family, symmetry mode, "
+                "record head or history line). F: each scenario family of tools/scen.py, symmetries ignored and default, every G_ij, sampled "
+                "susceptibilities (all subtraction modes), averages, chi for quadruples with distinct and equal indices, purge on/off, empty frequency "
+                "lists. S: the histories of harness/h_c17.cpp on Hubbard atom (single block / custom integral of motion), mixed-spin sites in spin-major "
+                "order, spinless sites, two sites (thorough: more models, all G pairs at +-300 Matsubara numbers). A sanitizer or Valgrind report, a "
+                "non-zero exit status or a rank that does not finish is a violation keyed '<kind> in <function>'.")
 
 
 def setup():
-    pv.build_harness("h_ed", "asan")
-    pv.build_harness("h_c15", "asan")
-    pv.build_harness("h_c05", "asan")
+    for h in ("h_ed", "h_c15", "h_c05", "h_c13", "h_c17", "h_c18", "h_c20", "h_c06"):
+        pv.build_harness(h, "asan")
+    pv.build_harness("h_c17", "real")
+    pv.build_harness("h_ed", "real")
 
 
 def replay(chk, path):
     import json
     r = json.load(open(path))["replay"]
-    if "scenario" in r:
-        x = edlib.run(r["scenario"], [r["query"]], variant="asan", oracle=False)
+    if isinstance(r, list):
+        print(json.dumps(r, indent=1)[:4000])
+        return 0
+    hn = r.get("harness", "")
+    if hn.startswith("h_ed") and "scenario" in r:
+        x = edlib.run(r["scenario"], [r["query"]] if "query" in r else r.get("queries", []), variant="asan", oracle=False)
         print(x.crash[1][-3000:] if x.crash else "no sanitizer report; records: %r" % (x.impl,))
+    elif hn.startswith("h_c17"):
+        val = "valgrind" in hn
+        h = pv.build_harness("h_c17", "real" if val else "asan")
+        rc, done, err, out = Runner(chk).run_seq(h, r["scenario"], [r["query"]],
+                                                 ["valgrind", "--error-exitcode=9", "--track-origins=yes", "-q"] if val else None)
+        print(out[-1500:])
+        print((pv.sanitizer_digest(err) if not val else "\n".join(l for l in err.split("\n") if l.startswith("==")))[-3000:] or "no report (rc=%d)" % rc)
+    elif hn.startswith("h_c06"):
+        R = Runner(chk)
+        R.mpi("M", "replay", r["scenario"], r["query"], int(r.get("np", 2)))
+        print("violations: %r" % (chk.violations,))
+    elif "input" in r:
+        h = pv.build_harness(hn.split()[0], "asan")
+        rc, out, err = pv.run_harness(h, r["input"], timeout=600, args=r.get("args", []))
+        print(out[-1500:])
+        print(pv.sanitizer_digest(err)[-3000:] or "no sanitizer report (rc=%d)" % rc)
     return 0
